@@ -207,6 +207,14 @@ JudgeCombine(c) == {
 (* that was raised must not be above max_volume, one that was lowered must *)
 (* not be below min_volume (the harness compares the stored floats).       *)
 (***************************************************************************)
+\* C06 on raw floats a hair beside a multiple of max_volume (the harness evaluates the literal statements in exact rational
+\* arithmetic on the floats it passed and received, see calls.py: rawsplit)
+JudgeRawSplit(c) == {
+    Cl("C06.rawcount", TRUE, c.out = "ok" /\ c.count),
+    Cl("C06.rawbounded", c.out = "ok", c.bounded),
+    Cl("C06.rawsum", c.out = "ok", c.sum)
+  }
+
 JudgeRawLimit(c) == {
     Cl("C02.rawsetup", TRUE, c.out = "ok" /\ Len(c.steps) = c.nsteps),
     Cl("C02.rawbounds", c.out = "ok", \A i \in 1..Len(c.steps) : ~c.steps[i].up /\ ~c.steps[i].down)
@@ -240,6 +248,7 @@ JudgeCall(c) ==
     [] c.fn = "dilplan" -> JudgeDilPlan(c)
     [] c.fn = "combine" -> JudgeCombine(c)
     [] c.fn = "rawlimit" -> JudgeRawLimit(c)
+    [] c.fn = "rawsplit" -> JudgeRawSplit(c)
     [] c.fn = "poslife" -> JudgePosLife(c)
     [] OTHER -> {Cl("machinery.unknown_fn", TRUE, FALSE)}
 
